@@ -5,7 +5,7 @@ from __future__ import annotations
 import itertools
 
 from .. import automata as A
-from .. import e1, impl, refmodel
+from .. import blocks, e1, impl, refmodel
 from ..chartgen import UNICODE_TRAPS, mk
 from ..linelang import BL
 
@@ -57,6 +57,7 @@ def plan(tier, seed):
     shards += [("subsets", 0), ("subsets", 1), ("subsets", 2), ("subsets", 3)]
     shards += [("values", f, L) for f in STRING_FIELDS]
     shards += [("twice", i) for i in range(4)]
+    shards += [("blocks", B, part) for B in blocks.BLOCKS for part in range(4)]
     shards += [("adversarial",), ("samevalue", 0), ("samevalue", 1), ("samevalue", 2)]
     return dict(shards=shards, bounds=dict(alphabet_size=len(A.SIGMA), value_length=L, subset_size=2), budget_s=900)
 
@@ -108,6 +109,8 @@ def run_shard(shard, ctx):
         _samevalue(ctx, shard[1])
     elif kind == "twice":
         _twice(ctx, shard[1])
+    elif kind == "blocks":
+        blocks.sweep(ctx, "field-at-block-boundary", _block_text, "Song", blocks=(shard[1],), part=shard[2], parts=4, drop=(), vias=("file",) if shard[1] > 8192 else ("file", "path"))
     else:
         _adversarial(ctx)
 
@@ -271,7 +274,15 @@ def _adversarial(ctx):
         check_song(ctx, [pad + "Resolution = 192"] + [pad + canon(f, 1) for f in OPTIONAL], "leading blanks %r" % pad)
 
 
+def _block_text(pad):
+    from ..chartgen import section
+
+    return section("Padding", ["x" * pad]) + mk(song=["Resolution = 192"] + [canon(f, k) for k, f in enumerate(OPTIONAL)])
+
+
 def replay(case):
+    if case.get("shape") == "full":
+        return e1.replay_model_case(case, "field-at-block-boundary")
     if case.get("kind") == "overlap":
         got = impl.model_outcome(case["text"], "file", None, DROP, "model")
         if got[0] != "ok":
